@@ -47,9 +47,9 @@ SPEC = dict(
              "files and default, a given flag hides its variable, the last file that mentions a setting wins (maps key by "
              "key), nothing configured gives the default; ${VAR} expansion as a character-level matcher (unset => "
              "unchanged, nothing outside ${...} touched, one reference replaced exactly, not idempotent with witness); "
-             "an accepted start-up uses the value the final validation pass accepted. Refuted with witnesses reproduced "
-             "on the real loader: list-valued options keep element 0 only; validation pass 1 refuses file values that a "
-             "flag/variable overrides; the API-key placeholder. Model tied to config/cmdenv.go, configLoadHelpers.go, "
+             "an accepted start-up uses the value the final validation pass accepted. List-valued options take every element given (full statement "
+             "proved after the repair of applyCmdEnvTags). Refuted with witnesses reproduced on the real loader: "
+             "validation pass 1 refuses file values that a flag/variable overrides; the API-key placeholder. Model tied to config/cmdenv.go, configLoadHelpers.go, "
              "file_config.go by running every reflected setting x 16 source combinations through the real loader and "
              "comparing effective value / rejection with the model, plus a monitor with the documented reading.",
         note="Trusted: Lean kernel; go-flags, yaml.v3, creasty/defaults as characterised above; differential check is "
